@@ -94,8 +94,10 @@ impl<'a> FieldParser<'a> {
         self.tokens.extend(match &field.desc {
             ast::FieldDesc::Scalar { id, width } => {
                 let id = id.to_ident();
+                let length_check = self.optional_length_check(&cond_id, &cond_value, *width);
                 let value = types::get_uint(self.endianness, *width, self.span);
                 quote! {
+                    #length_check
                     let #id = (#cond_id == #cond_value).then(|| #value);
                 }
             }
@@ -106,8 +108,10 @@ impl<'a> FieldParser<'a> {
                     let id = id.to_ident();
                     let type_id = type_id.to_ident();
                     let decl_id = &self.packet_name;
+                    let length_check = self.optional_length_check(&cond_id, &cond_value, *width);
                     let value = types::get_uint(self.endianness, *width, self.span);
                     quote! {
+                        #length_check
                         let #id = (#cond_id == #cond_value)
                             .then(||
                                 #type_id::try_from(#value).map_err(|unknown_val| {
@@ -135,6 +139,28 @@ impl<'a> FieldParser<'a> {
             },
             _ => unreachable!(),
         })
+    }
+
+    /// Check that the span holds an optional scalar or enum field
+    /// before it is read, when the condition selects it.
+    fn optional_length_check(
+        &self,
+        cond_id: &proc_macro2::Ident,
+        cond_value: &syn::LitInt,
+        width: usize,
+    ) -> proc_macro2::TokenStream {
+        let span = self.span;
+        let packet_name = &self.packet_name;
+        let wanted = proc_macro2::Literal::usize_unsuffixed(width / 8);
+        quote! {
+            if #cond_id == #cond_value && #span.remaining() < #wanted {
+                return Err(DecodeError::LengthError {
+                    obj: #packet_name,
+                    wanted: #wanted,
+                    got: #span.remaining(),
+                });
+            }
+        }
     }
 
     fn add_bit_field(&mut self, field: &'a ast::Field) {
